@@ -8,6 +8,7 @@ CLI (timed_out), the report text, and the process table (children of this proces
 import io
 import os
 import random
+import signal
 import time
 
 from .. import depgen as D
@@ -67,6 +68,8 @@ class Probes:
         self.o = o
         self.nx = nx
         self.events = []
+        self.clock_polls = 0
+        self.first_clock = self.last_clock = None
         self.deadline = None
         self.search_start = None
         self.paths = 0
@@ -79,7 +82,10 @@ class Probes:
         class TimeProxy:
             def time(self_):
                 t = real_time.time()
-                probe.events.append(("clock", t))
+                probe.clock_polls += 1
+                if probe.first_clock is None:
+                    probe.first_clock = t
+                probe.last_clock = t
                 return t
 
             def sleep(self_, s):
@@ -131,6 +137,26 @@ class Probes:
                 yield p
 
         nx.algorithms.simple_paths.all_simple_paths = counting
+        self._own = None
+        own = kernel_dg.KernelDG.__dict__.get("_simple_paths")
+        if own is not None:
+            fn = own.__func__ if isinstance(own, (staticmethod, classmethod)) else own
+            self._own = own
+
+            def counting_own(*a, **k):
+                if probe.search_start is None:
+                    probe.search_start = time.time()
+                for p in fn(*a, **k):
+                    probe.paths += 1
+                    now = time.time()
+                    if probe.first_path is None:
+                        probe.first_path = now
+                    probe.last_path = now
+                    if probe.deadline is not None and probe.paths % 256 == 0 and now > probe.deadline:
+                        raise SearchNotStopped("paths still produced %.1fs after the search started" % (now - probe.search_start))
+                    yield p
+
+            kernel_dg.KernelDG._simple_paths = staticmethod(counting_own)
         RealKDG = o.KernelDG
 
         def make(*a, **k):
@@ -142,6 +168,8 @@ class Probes:
 
     def reset(self, timeout):
         self.events = []
+        self.clock_polls = 0
+        self.first_clock = self.last_clock = None
         self.paths = 0
         self.first_path = self.last_path = None
         self.search_start = None
@@ -150,6 +178,8 @@ class Probes:
 
     def close(self):
         self.kd.time, self.kd.os, self.kd.Process, self.nx.algorithms.simple_paths.all_simple_paths, self.o.KernelDG = self._saved
+        if self._own is not None:
+            self.kd.KernelDG._simple_paths = self._own
 
 
 def children():
@@ -261,17 +291,44 @@ def one_run(probes, arch, fn, timeout, R, case, reference=None, expect_complete=
     t0 = time.time()
     aborted = None
     report = None
+
+    def on_alarm(signum, frame):
+        # bounded progress: long after the timeout, is the analysis still *searching* (path enumeration on the stack)?
+        names = []
+        f = frame
+        while f is not None:
+            names.append(f.f_code.co_name)
+            f = f.f_back
+        if any("simple_path" in n or "simple_edge_path" in n for n in names):
+            raise SearchNotStopped("still enumerating paths %.1fs after the analysis started" % (time.time() - t0))
+        raise CaseTimeout()
+
+    if timeout >= 0:
+        old = signal.signal(signal.SIGALRM, on_alarm)
+        signal.setitimer(signal.ITIMER_REAL, 3 * timeout + ABORT_MARGIN)
     try:
         report = run_cli(["--arch", arch, "--lcd-timeout", str(timeout), "--ignore-unknown", fn])
     except SearchNotStopped as e:
         aborted = str(e)
+    except CaseTimeout:
+        if timeout < 0:
+            raise
+        # not searching any more (post-processing of what was found): reported, not judged
+        R.inconclusive += 1
+        R.case()
+        R.count("post_processing_exceeded_margin")
+        return None
     except Exception as e:  # noqa
         R.exception(e, case)
         R.case()
         return None
+    finally:
+        if timeout >= 0:
+            signal.setitimer(signal.ITIMER_REAL, 0)
+            signal.signal(signal.SIGALRM, old)
     wall = time.time() - t0
     R.count("timeout:%s" % timeout)
-    R.count("monitor:clock_polls", sum(1 for e in probes.events if e[0] == "clock"))
+    R.count("monitor:clock_polls", probes.clock_polls)
     time.sleep(0.3)
     left = [c for c in children() if c not in before]
     R.count("no_child_left_checked")
@@ -308,14 +365,14 @@ def one_run(probes, arch, fn, timeout, R, case, reference=None, expect_complete=
     cut = bool(kills)
     if kills and not inst.timed_out:
         R.violation("warning/missing-after-kill", "%d workers were killed but timed_out is not set" % len(kills), case)
-    clocks = [e[1] for e in probes.events if e[0] == "clock"]
     if inst.timed_out:
         R.count("cut_short")
         if timeout < 0:
             R.violation("warning/with-timeout--1", "timed_out set although the timeout is -1", case)
-        elif len(clocks) >= 2 and clocks[-1] - clocks[0] <= timeout and not kills:
+        elif probes.clock_polls >= 2 and probes.last_clock - probes.first_clock <= timeout and not kills:
             # benign only if the module's own clock had passed the timeout at its last poll
-            R.violation("warning/spurious", "timed_out set although the module's clock had only advanced %.3fs of %ss" % (clocks[-1] - clocks[0], timeout), case)
+            R.violation("warning/spurious", "timed_out set although the module's clock had only advanced %.3fs of %ss"
+                        % (probes.last_clock - probes.first_clock, timeout), case)
     else:
         R.count("completed")
     ncyc = verify_cycles(inst, R, case)
